@@ -23,7 +23,7 @@ KIND_TAGS = {
     "optname": ["none", "str", "other", "int"],
     "name": ["str", "other", "int", "none"],
     "text": ["str"],
-    "selfc": ["Other", "Other+compiled"],
+    "selfc": TYPE_NAMES + [t + "+compiled" for t in TYPE_NAMES],     # the matching / cache API: every inferred type, cache empty or filled
     "rangestrs": ["rangestrs"],
     "intx": ["int", "none", "float", "str", "other"],
     "intnb": ["int", "float", "str", "other"],
